@@ -62,6 +62,8 @@ type cluster struct {
 	client *http.Client
 	cert   string
 	key    string
+
+	lastStatus int // HTTP status of the most recent readStream (0: no answer)
 }
 
 const clPassword = "clusterpw"
@@ -255,6 +257,7 @@ func (c *cluster) createSession(deadline time.Time) (*clClient, bool) {
 
 // readStream reads a session's stream from the start on one node until the sentinel shows up.
 func (c *cluster) readStream(n *clNode, cl *clClient, sentinel string, maxWait time.Duration) ([]streamed, bool) {
+	c.lastStatus = 0
 	ctx, cancel := context.WithTimeout(context.Background(), maxWait)
 	defer cancel()
 	req, _ := http.NewRequestWithContext(ctx, "GET", "https://"+n.addr+"/robustirc/v1/"+cl.id+"/messages?lastseen=0.0", nil)
@@ -264,6 +267,7 @@ func (c *cluster) readStream(n *clNode, cl *clClient, sentinel string, maxWait t
 		return nil, false
 	}
 	defer resp.Body.Close()
+	c.lastStatus = resp.StatusCode
 	if resp.StatusCode != 200 {
 		return nil, false
 	}
@@ -463,11 +467,21 @@ func clusterExecute(c *clCase, base string, k int) (fail *vh.Failure, labels []s
 		var got []streamed
 		ok := false
 		end := time.Now().Add(45 * time.Second)
+		attempts, refused := 0, 0
 		for time.Now().Before(end) && !ok {
 			got, ok = cl.readStream(n, observer, sentinel, 15*time.Second)
+			attempts++
+			if cl.lastStatus == 404 || cl.lastStatus == 500 {
+				refused++
+			}
 			if !ok {
 				time.Sleep(500 * time.Millisecond)
 			}
+		}
+		if !ok && refused >= 20 && refused == attempts {
+			// every attempt during 45 s was answered, and refused, by a node of a healthy network that
+			// acknowledged the sentinel: the observer's session does not exist or cannot be read there
+			return vh.Failf("node-does-not-serve-session", "node %d of the healthy network answered HTTP %d to each of %d reads of the observer's stream (session %s, created and acknowledged before the faults %+v)", n.idx+1, cl.lastStatus, attempts, observer.id, c.Faults), keys2(lab), true
 		}
 		if !ok {
 			return inconclusive(fmt.Sprintf("node %d did not serve the observer's stream up to the sentinel", n.idx+1))
